@@ -263,13 +263,14 @@ class Formatter(FormatterInterface):
             "acosh": "arccosh",
             "asinh": "arcsinh",
             "atanh": "arctanh",
+            "min_value": "minimum",
+            "max_value": "maximum",
         }
         function = function_map.get(f.function, f.function)
+        if "bessel" in function:
+            # No Bessel functions in numpy (and none usable from numba)
+            raise RuntimeError(f"The numba backend does not support the function {f.function}.")
         args = [self(arg) for arg in f.args]
-        if "bessel_y" in function:
-            return "scipy.special.yn"
-        if "bessel_j" in function:
-            return "scipy.special.jn"
         if function == "erf":
             return f"math.erf({args[0]})"
         argstr = ", ".join(args)
